@@ -164,12 +164,16 @@ def replay(pid: str, path: str) -> int:
 
 def _c03_monitor(sc, c, outcome):
     import monitors_sched as ms
-    cls = ms.c03_class(sc)
-    if cls == "C03-sparse-persistent":
-        return []          # simulators that omit persistent outputs are not API-compliant; nothing is claimed
-    out = ms.mon_c03(sc, c)
-    for v in out:
-        v["finding"] = cls
+    out = []
+    for v in ms.mon_c03(sc, c):
+        # attributed to a finding only if every offending key belongs to a connection with that finding's feature;
+        # keys fed by a simulator that omits its persistent outputs are not claimed at all
+        classes = [ms.c03_conn_class(sc, v["sim"], k) for k in v.pop("keys", [])]
+        classes = [x for x in classes if x != "C03-sparse-persistent"]
+        if not classes:
+            continue
+        v["finding"] = classes[0] if all(classes) else None
+        out.append(v)
     return out
 
 
